@@ -209,7 +209,7 @@ def cbmc_cmd(h, wd, witness_define, trace=True):
     if h.unwind is not None: cmd += ['--unwind', str(h.unwind), '--unwinding-assertions']
     if h.unwindset: cmd += ['--unwindset', h.unwindset]
     if h.mode == 'stop': cmd += ['--stop-on-fail']
-    if h.paths: cmd += ['--paths', 'lifo']     # path-wise symbolic execution: control flow (hence every pointer) is concrete on each path, data stays symbolic; one SAT query per path
+    if h.paths: cmd += ['-DIR_BRANCHFREE_MEM', '--paths', 'lifo']     # path-wise symbolic execution: control flow (hence every pointer) is concrete on each path, data stays symbolic; one SAT query per path
     if trace: cmd += ['--trace']
     if h.backend == 'z3': cmd += ['--z3']
     elif h.backend in ('cvc5', 'cvc5int'): cmd += ['--cvc5']
